@@ -196,7 +196,7 @@ type world struct {
 	hitWhy   map[string]bool   // only during push: reasons of the poisoned keys this request hit
 	ackClass map[akey]string   // explanation of an undiscoverable sample, fixed at the moment it was acknowledged
 	ownFailed map[skey]struct{} // series rows of failed INSERTs of the request being folded in (only during push)
-	shiftSeen bool // some request sent a series row for a day on which it has no sample while it has one on the next day (the D9 signature)
+	shifts bool // calibration: this process stores the series row of a noon sample under the previous day (the D9 behaviour), observed on the warm-up request
 	requests int64
 	inserts  int64
 	handlerNs, quiesceNs int64
@@ -244,6 +244,14 @@ func newWorld(cfg bConfig) *world {
 	w.resetHistory()
 	// warm-up request (connects both services), then take the goroutine baseline
 	w.push("push:W[D]", -1000)
+	// calibration of the D9 classifier: one series, one sample at 12:00Z — under which day did its series row travel?
+	for a := range w.acked {
+		for r := range w.inserted {
+			if r.FP == a.FP && int64(r.Day) == a.Ts/1e9/86400-1 {
+				w.shifts = true
+			}
+		}
+	}
 	time.Sleep(20 * time.Millisecond)
 	w.baseline = runtime.NumGoroutine()
 	w.resetHistory()
@@ -264,7 +272,6 @@ func (w *world) resetHistory() {
 	w.failed = map[skey]struct{}{}
 	w.poisoned = map[uint64]string{}
 	w.ackClass = map[akey]string{}
-	w.shiftSeen = false
 }
 
 // snap is a restorable copy of the whole world state.  The real objects hold no other state between requests: the
@@ -280,7 +287,6 @@ type snap struct {
 	Inserted []skey
 	Failed   []skey
 	Poison   map[uint64]string
-	ShiftSeen bool
 	Shadow   []uint64
 	TsFail   int
 	SplFail  int
@@ -306,7 +312,6 @@ func (w *world) snapshot(hist []string) *snap {
 	for k, v := range w.poisoned {
 		s.Poison[k] = v
 	}
-	s.ShiftSeen = w.shiftSeen
 	for k := range w.shadow {
 		s.Shadow = append(s.Shadow, k)
 	}
@@ -335,7 +340,6 @@ func (w *world) restore(s *snap) {
 	for k, v := range s.Poison {
 		w.poisoned[k] = v
 	}
-	w.shiftSeen = s.ShiftSeen
 	db := w.cache.DB("n1")
 	for _, k := range s.Shadow {
 		db.CheckAndSet(k) // the real cache relearns exactly the keys it held
@@ -439,19 +443,6 @@ func (w *world) push(event string, clock int) int {
 	w.requests++
 	var okSamples []ir.SampleRow
 	log := w.fake.Take()
-	reqDays := map[skey]bool{} // (fingerprint, UTC day) of the samples this request sent
-	for _, ins := range log {
-		for _, r := range ins.Samples {
-			reqDays[skey{r.FP, uint16(r.TsNs / 1e9 / 86400)}] = true
-		}
-	}
-	for _, ins := range log {
-		for _, r := range ins.Series {
-			if !reqDays[skey{r.FP, r.Day}] && reqDays[skey{r.FP, r.Day + 1}] {
-				w.shiftSeen = true
-			}
-		}
-	}
 	w.ownFailed = map[skey]struct{}{}
 	w.hitWhy = map[string]bool{}
 	for k := range w.slog.hit {
@@ -657,9 +648,9 @@ func (w *world) checkOne(k akey) (class, what string) {
 		_, off := t.In(time.Local).Zone()
 		ownFailedGood, any := false, false
 		// D9 deviant rule: in a zone west of UTC every series row is dated one day early.  It is only considered when
-		// that has actually been observed in this history (a row sent for a day on which its request has no sample
-		// while it has one on the next day), and it explains the sample only if the sample WOULD be discoverable with
-		// every stored day moved one day later — anything still missing then is a different defect.
+		// this process has been observed to do so (calibration on the warm-up request: a 12:00Z sample whose series
+		// row travelled under the previous day), and it explains the sample only if the sample WOULD be discoverable
+		// with every stored day moved one day later — anything still missing then is a different defect.
 		shifted := false
 		for r := range w.failed {
 			if r.FP == k.FP && r.Day >= bday {
@@ -671,7 +662,7 @@ func (w *world) checkOne(k akey) (class, what string) {
 		for r := range w.inserted {
 			if r.FP == k.FP {
 				any = true
-				if w.shiftSeen && dayString(r.Day+1) >= bound {
+				if w.shifts && dayString(r.Day+1) >= bound {
 					shifted = true
 				}
 			}
